@@ -25,8 +25,16 @@ def ucs(seq):
 
 
 def load_known():
+    """known_findings.json (committed, never written at run time)"""
     with open(os.path.join(VERIF, "known_findings.json")) as f:
-        return json.load(f)
+        out = json.load(f)
+    d = os.path.join(VERIF, "known_findings.d")          # staging area used while a check is being developed
+    if os.path.isdir(d):
+        for n in sorted(os.listdir(d)):
+            if n.endswith(".json"):
+                with open(os.path.join(d, n)) as f:
+                    out += json.load(f)
+    return out
 
 
 class Ctx(object):
